@@ -401,6 +401,33 @@ func ruleTabCircle(c *Ctx) {
 			continue
 		}
 		calls[m] = fc
+		// a conversion refuses a key only because find refuses it (a check of its own would reject keys the circle holds)
+		if mfn := c.fn("op", "CircleOfFifth."+m); mfn != nil {
+			c.site(1)
+			isFindErr := func(v ssa.Value) bool {
+				ex, ok := v.(*ssa.Extract)
+				if !ok || !isErrorType(ex.Type()) {
+					return false
+				}
+				call, ok := ex.Tuple.(*ssa.Call)
+				if !ok {
+					return false
+				}
+				n := calleeName(&call.Call)
+				return n == "op.CircleOfFifth.find" || strings.HasPrefix(n, "op.CircleOfFifth.")
+			}
+			problem := ""
+			for _, r := range returnsOf(mfn) {
+				e := retVal(r, len(r.Results)-1)
+				if isNilConst(e) {
+					continue
+				}
+				if !dataDependsOn(e, isFindErr) {
+					problem = "an error is returned that does not come from the lookup on the circle (at " + c.pos(r.Pos()) + ")"
+				}
+			}
+			c.check(problem == "", "op.CircleOfFifth."+m+"|refusals", c.pos(mfn.Pos()), fname(mfn), "refuses a key only when the circle lookup does", fname(mfn)+": "+problem+": keys that are on the circle are refused by an extra test (e.g. the two seven-accidental keys)")
+		}
 		w := want[m]
 		good := fc.flipMode == w.flip && fc.deltaByMode[false] == w.dMaj && fc.deltaByMode[true] == w.dMin
 		c.check(good, key, c.pos(fc.pos), "op.CircleOfFifth."+m,
